@@ -298,7 +298,7 @@ USERS = [['alice', '4x5istwelve'], ['bob', 'p:w:'], ['ren\u00e9', 'p\u00e4ssw\u0
          ['\U0001F600u', '\U0001F512'], ['co:lon', 'x'], ['qu"ote', 'a"b'], ['back\\slash', 'c\\d'],
          ['com,ma', 'e, f'], ['sp ace', ' lead'], ['nfd', 'e\u0301'], ['nfc', '\u00e9'], ['empty', ''],
          ['\u00c3\u00a9', 'Ã©pw']]
-METHODS = ['GET', 'POST', 'HEAD', 'PUT', 'DELETE']
+METHODS = ['GET', 'POST', 'HEAD', 'PUT', 'DELETE', 'GET', 'POST', 'get', 'Post']   # method tokens are case-sensitive (RFC 7231 4.1)
 HEX = '0123456789abcdef'
 
 D_CORRUPTIONS = [
@@ -593,7 +593,7 @@ class C19(core.Check):
             user, use_pw = resp_user, _ = 'empty', ''
         nonce = '%s:%s' % (ts, md5u('%s:%s:%s' % (ts, nonce_realm, nonce_key)))
         if kind == 'method-mismatch':
-            resp_method = rng.choice([m for m in METHODS if m != method] + [method.lower()])
+            resp_method = rng.choice([m for m in METHODS if m != method] + [method.swapcase()])
         if kind == 'uri-mismatch':
             resp_uri = uri + 'x'
         try:
